@@ -89,7 +89,7 @@ def run(chk, cfgname, pid="C13", want=None):
         if v == "reader_heap_intr" and o["result"] != "ok":
             got = [sc.ev_key(e) for e in expand(o["out"], inp)]
             ref = [sc.ev_key(e) for e in fake["ref"] if e["k"] != "finish"]
-            why = None if ("injected-read" in str(o["result"]) and got == ref[:len(got)]) else \
+            why = None if ("injected-read" in (str(o["result"]) + str(o.get("err"))) and got == ref[:len(got)]) else \
                 "the interrupted read ended the search with %r and a stream that is not a prefix of the reference" % (o["result"],)
         else:
             why = sc.judge(fake, dict(o, out=expand(o["out"], inp)))
